@@ -32,11 +32,11 @@ const char* const kFaultNames[] = { "preemption", "child_runs_first_at_create", 
 enum ProbeId { P_singleton_run, P_managed_run, P_two_threads_inside_instance, P_lock_waited,
                P_query_while_running, P_query_before_start, P_query_after_finish, P_child_ran_before_ctor_end,
                P_join_explicit, P_join_by_destructor, P_observer_thread, P_reset_between_rounds,
-               P_policy_random, P_policy_pct, P_policy_rr, P_policy_explicit, P_function_over_before_ctor_end };
+               P_policy_random, P_policy_pct, P_policy_rr, P_function_over_before_ctor_end };
 const char* const kProbeNames[] = { "singleton_run", "managed_run", "two_threads_inside_instance", "lock_waited",
                "query_while_function_running", "query_before_start", "query_after_finish",
                "child_ran_before_constructor_finished", "join_explicit", "join_by_destructor", "observer_thread",
-               "reset_between_rounds", "policy_random", "policy_pct", "policy_rr", "policy_explicit",
+               "reset_between_rounds", "policy_random", "policy_pct", "policy_rr",
                "function_finished_before_constructor_returned" };
 
 // ------------------------------------------------------------ singleton
@@ -242,7 +242,7 @@ public:
       case sim::polRandom: st.probe( P_policy_random); break;
       case sim::polPct: st.probe( P_policy_pct); break;
       case sim::polRoundRobin: st.probe( P_policy_rr); break;
-      default: st.probe( P_policy_explicit); break;
+      default: break;   // explicit switch list: replays only
       }
       g_result = &res;
       g_stats = &st;
